@@ -31,6 +31,32 @@ Theorem C08_roundtrip :
 Proof. exact roundtrip_unpack. Qed.
 Print Assumptions C08_roundtrip.
 
+(* 1'. The same for every configuration of the writer: put_object takes its zstd level from SCCACHE_CACHE_ZSTD_LEVEL
+       (zstd_level: an i32 literal, else 3).  The reader has no configuration, so what ANY level packed unpacks
+       exactly — for every value the variable can hold.  zstd is a family compress_at level with one decompress
+       that inverts all of them (levels only choose encoder parameters: window, tables, strategy). *)
+Theorem C08_roundtrip_every_level :
+  forall (compress_at : level -> list N -> list N) (decompress : list N -> option (list N)),
+    (forall l x, decompress (compress_at l x) = Some x) ->
+  forall (env : option (list N)) (objs : list (list N * option N * list N)) (stdout stderr : list N)
+         (reqs : list (list N * bool)),
+    let ms := cache_members_cfg compress_at env objs stdout stderr in
+    let bs := cache_write_cfg compress_at env objs stdout stderr in
+    objs_ok objs -> writable ms = true -> no_z64_locator bs = true ->
+    map fst reqs = map obj_name objs ->
+    unpack decompress bs reqs
+    = UHit stdout stderr (map (fun o => Some (Some (perm_of (obj_mode o)), obj_content o)) objs).
+Proof. exact roundtrip_every_level. Qed.
+Print Assumptions C08_roundtrip_every_level.
+
+(* the level the writer uses is always an i32, whatever the variable holds; unset means 3 *)
+Theorem C08_zstd_level_is_i32 :
+  forall env : option (list N),
+    let l := zstd_level env in
+    (fst l = false -> snd l <= 2147483647) /\ (fst l = true -> 0 < snd l <= 2147483648).
+Proof. exact zstd_level_is_i32. Qed.
+Print Assumptions C08_zstd_level_is_i32.
+
 (* 2. Two byte strings of equal length that differ in exactly one byte have different CRC-32. *)
 Theorem C08_crc_single_byte :
   forall (p s : list N) (b b' : N), b < 256 -> b' < 256 -> b <> b' ->
@@ -181,6 +207,11 @@ Example ex_blank_output_roundtrips :
      = UHit [0] [] [Some (Some 33261, [127; 69; 76; 70]); Some (Some 33188, [1; 2])]
   /\ has_name (match open_entry (cache_write ex_compress ex_objs [10] []) with Some ar => ar | None => [] end) NAME_STDOUT = true
   /\ has_name (match open_entry (cache_write ex_compress ex_objs [] []) with Some ar => ar | None => [] end) NAME_STDOUT = false.
+Proof. vm_compute. repeat split. Qed.
+Example ex_zstd_levels :
+  zstd_level None = (false, 3) /\ zstd_level (Some [50; 50]) = (false, 22) /\ zstd_level (Some [45; 53]) = (true, 5)
+  /\ zstd_level (Some [43; 55]) = (false, 7) /\ zstd_level (Some [32; 55]) = (false, 3)
+  /\ zstd_level (Some [50; 49; 52; 55; 52; 56; 51; 54; 52; 56]) = (false, 3).
 Proof. vm_compute. repeat split. Qed.
 Example ex_payload_substitutions_are_misses :
   unpack ex_decompress (subst_at 35 0 ex_bs) ex_reqs = UMiss
